@@ -352,7 +352,11 @@ func m2(c *Case, mc *M2Case) *M2Result {
 	if desc != "" {
 		desc += ": "
 	}
-	c.Violation(desc+why+" | program: "+clip(mc.Text, 200), mod.TagList(), rp)
+	tags := mod.TagList()
+	if lib.Class == "panic" {
+		tags = nil // a crash is never explained by a known finding
+	}
+	c.Violation(desc+why+" | program: "+clip(mc.Text, 200), tags, rp)
 	return res
 }
 
